@@ -296,9 +296,10 @@ func (c *Client) closeAndDelSession() {
 		c.close()
 		return
 	}
-	c.broker.sessMgr.delLocal(c.info.cid)
-	if c.session.cleanSession() {
-		c.broker.sessMgr.delDB(c.info.cid)
+	if c.broker.sessMgr.delLocalSession(c.info.cid, c.session) {
+		if c.session.cleanSession() {
+			c.broker.sessMgr.delDB(c.info.cid)
+		}
 	}
 
 	topics, _, _ := c.session.allSubscribes()
